@@ -298,7 +298,7 @@ DIM_PROBES = ["add", "radd", "align", "align_inner", "align_sort", "reindex", "s
               "sum", "cumsum", "concat", "union", "intersection", "take_pos", "reindex_like"]
 ARR_PROBES = ["repr", "flatten", "unflatten", "transpose", "stack", "dataset", "neg", "copy", "labels", "sizes", "eq"]
 QUERIES = ["add_other", "is_monotonic", "align_other", "sort_axis", "reindex_other", "radd_other", "align_inner", "repr",
-           "labels", "flat_labels", "sum", "union", "sizes"]
+           "labels", "flat_labels", "sum", "union", "sizes", "sum_name", "swapaxes_name"]
 STEP_W = [("query", 20), ("slice", 7), ("take", 5), ("transpose", 3), ("sort_key", 3), ("copy", 2), ("relabel", 8),
           ("set_values", 3), ("sort_inplace", 5), ("set_labels", 8), ("rename", 7), ("reduce", 5), ("cum", 3),
           ("flatten", 5), ("unflatten", 2), ("reshape", 2), ("newaxis", 2), ("squeeze", 1), ("swapaxes", 2),
@@ -628,6 +628,8 @@ class C05(Prop):
             elif t == "set_labels":
                 steps.append(["set_labels", k, ri(), rng.choice(SET_VIA), rng.choice(SET_HOW)])
             elif t == "rename":
+                if rng.random() < 0.6:
+                    steps.append(["query", k, rng.choice(["sum_name", "swapaxes_name"]), ri()])
                 steps.append(["rename", k, ri(), rng.choice(["name_setter", "set_axis_name", "dims_setter", "dims_dict", "axis_set_name",
                                                              "axes_setitem", "set_axis_copy", "dims_swap", "dims_swap_dict", "dims_dup",
                                                              "dims_dup_dict"])])
@@ -674,8 +676,8 @@ class C05(Prop):
             elif t == "ds_mut":
                 steps.append(["ds_mut", ri(), rng.choice(["set_axis_vals", "set_axis_longer", "rename_axes", "set_axis_name", "del", "axes_relabel",
                                                            "axes_setitem_longer"]), ri(), ri()])
-        probes = {"dim": ["is_monotonic"] + rng.sample(DIM_PROBES[:9] + DIM_PROBES[10:], 6 if tier == "quick" else 10),
-                  "arr": ["labels"] + rng.sample([p for p in ARR_PROBES if p != "labels"], 3 if tier == "quick" else 6)}
+        probes = {"dim": ["is_monotonic", "sum_name"] + rng.sample(DIM_PROBES[:9] + DIM_PROBES[10:], 6 if tier == "quick" else 10),
+                  "arr": ["labels", "transpose_names"] + rng.sample([p for p in ARR_PROBES if p != "labels"], 3 if tier == "quick" else 6)}
         out = {"op": "hist", "array": arr, "steps": steps, "forms": [], "probes": probes, "theme": theme}
         if more:
             out["more"] = more
@@ -821,6 +823,11 @@ class C05(Prop):
                     a.flatten().axes[0].values
             elif q == "sum":
                 a.sum(axis=d)
+            elif q == "sum_name":
+                a.sum(axis=a.dims[d])           # a dimension resolved BY NAME (any per-object name bookkeeping is exercised)
+            elif q == "swapaxes_name":
+                if nd >= 2:
+                    a.swapaxes(a.dims[0], a.dims[-1])
             else:
                 o = self.other_for(a, d)
                 if q == "add_other":
@@ -1206,6 +1213,8 @@ class C05(Prop):
             return bool(ax.is_monotonic())
         if name == "sum":
             return x.sum(axis=d)
+        if name == "sum_name":
+            return x.sum(axis=x.dims[d])
         if name == "cumsum":
             return x.cumsum(axis=d)
         if name == "concat":
@@ -1223,6 +1232,8 @@ class C05(Prop):
             return x.unflatten()
         if name == "transpose":
             return x.T
+        if name == "transpose_names":
+            return x.transpose(*reversed(x.dims)) if x.ndim >= 2 else x
         if name == "stack":
             return da.stack([x, x], axis="s_", keys=["p", "q"])
         if name == "dataset":
